@@ -418,6 +418,8 @@ class Exec:
             return self.isnone(x)
         if isinstance(a, bool) and isinstance(b, bool):
             return a is b
+        if _plain(a) and _plain(b):
+            return type(a) is type(b) and a == b      # identity of small immutable constants (x is True / x is False with a non-bool x is False)
         if isinstance(a, z3.ExprRef) and z3.is_bool(a) and isinstance(b, bool):
             return a if b else z3.Not(a)
         if isinstance(b, z3.ExprRef) and z3.is_bool(b) and isinstance(a, bool):
@@ -801,6 +803,8 @@ class Exec:
                 return tuple(o.xargs)
             if name in getattr(o, 'attrs', {}):
                 return o.attrs[name]
+        if name == '__class__' and isinstance(o, (list, tuple, dict, set, str)) and not hasattr(o, '_fields'):
+            return self.builtins[type(o).__name__]
         return Bound(B.MethodRef(name), o)    # method of a builtin value: resolved when called
 
     # ------------------------------------------------------------------ subscripts
